@@ -560,8 +560,12 @@ def _resolve(program, ctx_name, relpath, module_name, level, file_path=None, loa
 
     def lookup(interp, node, args, kwargs, cfg, out):
         disk.append(1)
-        if len(args) > 1 and isinstance(args[1], ListV):
-            for row in args[1].items:
+        # the candidate rows are the list of lists among the arguments (the lookup function may take the base directory as well)
+        cand = next((a for a in args[1:] if isinstance(a, ListV) and a.items and all(isinstance(r, ListV) for r in a.items)), None)
+        if cand is None:
+            cand = next((a for a in args[1:] if isinstance(a, ListV)), None)
+        if cand is not None:
+            for row in cand.items:
                 files.append(tuple(x.v if isinstance(x, Const) else repr(x) for x in row.items) if isinstance(row, ListV) else repr(row))
         return [(cfg, Const(None))]
 
